@@ -151,3 +151,21 @@ def is_write_event(ev):
             return False
         return bool(fl & (os.O_WRONLY | os.O_RDWR | os.O_CREAT | os.O_TRUNC | os.O_APPEND))
     return audit.is_write_mode(mode)
+
+
+def limit_repeats(obs, registry, max_per_mech=4):
+    """The worker keeps only the first 200 violations of a run: one mechanism that
+    fires in every case must not crowd out a different one.  Keep the first witness per
+    mechanism and case, and at most *max_per_mech* per worker process (*registry* is a
+    module-level dict); the rest is counted in ``violations_counted_not_listed``.
+    A replay (fresh process, one case) always lists its violations."""
+    kept, seen = [], set()
+    for v in obs.violations:
+        m = v["mech"]
+        if m in seen or registry.get(m, 0) >= max_per_mech:
+            obs.count("violations_counted_not_listed")
+            continue
+        seen.add(m)
+        registry[m] = registry.get(m, 0) + 1
+        kept.append(v)
+    obs.violations[:] = kept
